@@ -13,6 +13,15 @@ def node_names(nodes, seed=0):
     if seed % 3 == 1:
         # siblings whose names are prefixes of each other ("lib", "libx", "libxx": a prefix sorts first, so index order is kept)
         return ["lib" + "x" * i for i in range(len(nodes))]
+    if seed % 3 == 2:
+        # names by position among the siblings: the same names recur in different directories ("00-n" at the top and inside every
+        # directory), so the text of a link to a sibling can equal the path of a member somewhere else
+        seen, out = {}, []
+        for n in nodes:
+            k = seen.get(n["p"], 0)
+            seen[n["p"]] = k + 1
+            out.append(f"{k:02d}-n")
+        return out
     return [f"{i:02d}-{BASES[i % len(BASES)]}" for i in range(len(nodes))]
 
 
@@ -111,7 +120,13 @@ def kind_of(st, size):
 
 def compare(src_root, out_root, nodes, rel, deref):
     """walk the extracted tree; for every entry find its counterpart in the source and record the comparison"""
-    name_to_idx = {os.path.basename(r): i + 1 for i, r in rel.items()}
+    # a node is known by its path with the directories in front of its last component resolved (names may recur in different
+    # directories; below a dereferenced directory link the entries are those of the directory it points to)
+    def canon(p):
+        p = os.path.normpath(p)
+        return os.path.join(os.path.realpath(os.path.dirname(p)), os.path.basename(p))
+
+    canon_to_idx = {canon(os.path.join(src_root, r)): i + 1 for i, r in rel.items()}
     content_idx = {}
     for i, n in enumerate(nodes):
         if n["k"] in ("file", "empty"):
@@ -122,7 +137,7 @@ def compare(src_root, out_root, nodes, rel, deref):
             full = os.path.join(dp, name)
             relp = os.path.relpath(full, out_root)
             comps = relp.split(os.sep)
-            path = [name_to_idx.get(c, 0) for c in comps]
+            path = [canon_to_idx.get(canon(os.path.join(src_root, *comps[:k + 1])), 0) for k in range(len(comps))]
             st = os.lstat(full)
             src = os.path.join(src_root, relp)
             e = {"path": path, "what": kind_of(st, st.st_size), "src": 0, "mode_ok": True, "ticks": 0, "data_ok": True}
@@ -135,10 +150,10 @@ def compare(src_root, out_root, nodes, rel, deref):
             if e["what"] == "link":
                 tgt_here = os.readlink(full)
                 e["data_ok"] = tgt_here == os.readlink(src)
-                e["src"] = name_to_idx.get(os.path.basename(os.path.normpath(os.path.join(os.path.dirname(src), tgt_here))), 0)
+                e["src"] = canon_to_idx.get(canon(os.path.join(os.path.dirname(src), tgt_here)), 0)
             elif e["what"] == "dir":
                 real = os.path.realpath(src)
-                e["src"] = name_to_idx.get(os.path.basename(real), 0)
+                e["src"] = canon_to_idx.get(canon(real), 0)
                 e["mode_ok"] = stat.S_IMODE(st.st_mode) == stat.S_IMODE(sst.st_mode)
                 e["ticks"] = min(abs(st.st_mtime_ns - sst.st_mtime_ns) // 100, 10 ** 9)
             else:
